@@ -695,6 +695,8 @@ func runC14(p *Program, r *Report) {
 	}
 	r.Rule("R14l", "SUBTRACTION-NOT-SKIPPED: a subtraction step of the proof combination runs on every path, or is skipped only on a test of the length of the list being subtracted")
 	checkSubtractionNotSkipped(p, r, "R14l", "AddProof", 2)
+	r.Rule("R14m", "UNION-NOT-CONCATENATION: no list the proof combination returns is assembled by putting a list of one proof behind a list of the other (append(a, b...), AppendMany, copy, slices.Concat, directly or in a helper); the lists of the two proofs are joined by the de-duplicating merges")
+	checkUnionNotConcat(p, r, "R14m", "AddProof", 2)
 	r.Rule("R14j", "JOINT-PROOF-POSITIONS: the single-target proof-position helper is never called in a loop whose results are accumulated into one list (the proof of several targets is computed by the joint function)")
 	checkJointProofPositions(p, r, "R14j")
 }
